@@ -96,13 +96,22 @@ theorem ChanInv.cycBegin {s : Sys} (h : ChanInv s) : ChanInv s.cycBegin.1 := by
       · rcases hp with hp | hp <;> cases hp
 
 theorem ringsW_natSet_clear (w : Cmd → Nat) (l : List (Nat × Ring Cmd)) (t : Nat) :
-    ringsW w (natSet l t ⟨[], ((natGet l t).getD (Ring.new Consts.ringCap)).cap, ((natGet l t).getD (Ring.new Consts.ringCap)).producerAlive⟩)
+    ringsW w (if (natGet l t).isSome then
+        natSet l t ⟨[], ((natGet l t).getD (Ring.new Consts.ringCap)).cap, ((natGet l t).getD (Ring.new Consts.ringCap)).producerAlive⟩
+      else l)
       + wsum w ((natGet l t).getD (Ring.new Consts.ringCap)).q = ringsW w l := by
-  have := ringsW_natSet w l t ⟨[], ((natGet l t).getD (Ring.new Consts.ringCap)).cap, ((natGet l t).getD (Ring.new Consts.ringCap)).producerAlive⟩
-  have e : ((natGet l t).getD (Ring.new Consts.ringCap)).q = ((natGet l t).map (·.q)).getD [] := by
-    cases natGet l t <;> rfl
-  rw [e]
-  simpa using this
+  cases hg : natGet l t with
+  | none => simp [Ring.new]
+  | some r =>
+    have := ringsW_natSet_some w l t r ⟨[], r.cap, r.producerAlive⟩ hg
+    simp only [Option.isSome_some, if_true, Option.getD_some]
+    simp only [wsum_nil] at this
+    omega
+
+/-- the ghost log of what was popped does not enter the accounting -/
+theorem ChanInv.logDrained {s : Sys} (h : ChanInv s) (t : Nat) (q : List Cmd) : ChanInv (s.logDrained t q) := by
+  unfold Sys.logDrained
+  exact h.withG_side { s.g with drainedBy := (q.map (fun c => (t, c))).reverse ++ s.g.drainedBy } rfl rfl rfl rfl
 
 theorem getD_q (o : Option (Ring Cmd)) : (o.getD (Ring.new Consts.ringCap)).q = (o.map (·.q)).getD [] := by
   cases o <;> rfl
@@ -131,13 +140,15 @@ theorem ChanInv.cycStep {s : Sys} (h : ChanInv s) : ChanInv s.cycStep.1 := by
       · rename_i t rest hrest
         have key := fun w => ringsW_natSet_clear w cs.kept t
         split
-        · refine h.withCyc _ (fun w => ?_) (fun _ => ht)
+        · refine (h.logDrained t _).withCyc _ (fun w => ?_) (fun _ => ht)
           have := key w
+          show _ = cycW w s.cyc s.rxs
           rw [cw w]
           simp only [cycW, wsum_append]
           omega
-        · refine h.withCyc _ (fun w => ?_) (fun _ => ht)
+        · refine (h.logDrained t _).withCyc _ (fun w => ?_) (fun _ => ht)
           have := key w
+          show _ = cycW w s.cyc s.rxs
           rw [cw w]
           simp only [cycW, wsum_append]
           omega
@@ -150,8 +161,9 @@ theorem ChanInv.cycStep {s : Sys} (h : ChanInv s) : ChanInv s.cycStep.1 := by
         rw [cw w]; rfl
     · -- atRx: pop everything
       rename_i t r rest hph htodo
-      refine h.withCyc _ (fun w => ?_) (fun hp => ?_)
-      · rw [cw w, htodo]
+      refine (h.logDrained t _).withCyc _ (fun w => ?_) (fun hp => ?_)
+      · show _ = cycW w s.cyc s.rxs
+        rw [cw w, htodo]
         simp only [cycW, ringsW_cons, wsum_append, wsum_nil]
         omega
       · rcases hp with hp | hp <;> cases hp
@@ -190,15 +202,18 @@ theorem ChanInv.cycStep {s : Sys} (h : ChanInv s) : ChanInv s.cycStep.1 := by
             · rw [cw w, htodo]; have := hq0 w; simp only [cycW, ringsW_cons]; omega
             · rcases hp with hp | hp <;> cases hp
         · -- abandoned, but the re-check finds commands
-          refine h.withCyc _ (fun w => ?_) (fun hp => ?_)
-          · rw [cw w, htodo]
+          refine (h.logDrained t _).withCyc _ (fun w => ?_) (fun hp => ?_)
+          · show _ = cycW w s.cyc s.rxs
+            rw [cw w, htodo]
             simp only [cycW, ringsW_cons, wsum_append, wsum_nil]
             omega
           · rcases hp with hp | hp <;> cases hp
 
 theorem ChanInv.cycle {s : Sys} (h : ChanInv s) (hc : s.cyc = none) : ChanInv s.cycle.1 := by
   unfold Sys.cycle
-  refine h.finishCycle _ _ [] (fun w => ?_)
+  have h' := h.withG_side { s.g with drainedBy := (drainAllTagged s.rxs).reverse ++ s.g.drainedBy } rfl rfl rfl rfl
+  refine h'.finishCycle (drainAll s.rxs).1 (drainAll s.rxs).2 [] (fun w => ?_)
+  show cycW w s.cyc s.rxs = _
   rw [hc]
   have := drainAll_w w s.rxs
   simp only [cycW, wsum_nil]
